@@ -20,13 +20,13 @@ func init() {
 		ID: "C11",
 		Meta: func(tier string) fw.Meta {
 			return fw.Meta{
-				Flavours: []string{"plain", "cover"},
+				Flavours: []string{"plain", "race", "cover"},
 				Blocks:   16,
 				Procs:    16,
 				Rule: "case = pair (lhs, rhs) of int sequences. Exhaustive: every pair over alphabet 3 x length <= 7 (10,758,400 pairs), alphabet 2 x length <= 9 (1,046,529 pairs) and alphabet 4 x length <= 5 (1,863,225 pairs) in quick; additionally alphabet 2 x length <= 11, alphabet 3 x length <= 8 (96.8 M pairs) and alphabet 5 x length <= 5 in thorough; every pair of windows (prefix/prefix, window/prefix, suffix/prefix) of one shared backing array of up to 9 binary elements (inputs that alias each other); random pairs of length up to 400 made of long common runs with point mutations, insertions, deletions and block moves over alphabets of 2..50 symbols. " +
-					"Per pair: interpreter (each edit's X and Y are the spans of lhs and rhs at the current offsets, by value and by address; lhs consumed and rhs produced exactly), emitted element count == LCS length from an independent O(mn) table, canonical form (no empty edit, adjacent edits differ in kind, no Drop next to Copy, only the four opcodes, empty iff equal), inputs unmodified. " +
+					"Per pair: interpreter (each edit's X and Y are the spans of lhs and rhs at the current offsets, by value and by address; lhs consumed and rhs produced exactly), emitted element count == LCS length from an independent O(mn) table, canonical form (no empty edit, adjacent edits differ in kind, no Drop next to Copy, only the four opcodes, empty iff equal), inputs unmodified; a sample of returned scripts is kept and verified again after later calls; 8 goroutines call EditScript concurrently on unshared inputs (plain and under -race). " +
 					"distinct = the pair itself (enumerated without repetition; random pairs by hash); non-trivial = the pair has more than one optimal alignment (counted by a separate DP)",
-				Required:     []string{"pairs", "ambiguous_pairs", "replace_edits", "equal_pairs", "random_pairs", "aliased_pairs"},
+				Required:     []string{"pairs", "ambiguous_pairs", "replace_edits", "equal_pairs", "random_pairs", "aliased_pairs", "concurrent_calls", "kept_results_rechecked"},
 				Exhaustive:   true,
 				Assumptions:  []string{"the O(mn) LCS table is the reference for minimality"},
 				CoverPkgs:    []string{"github.com/creachadair/mds/slice"},
@@ -89,6 +89,126 @@ func editsString(es []slice.Edit[int]) string {
 	return fmt.Sprint(es)
 }
 
+// c11verify decides whether es is a valid, minimal, canonical script from lhs
+// to rhs; it returns "" or a description of the first problem, and the number
+// of Replace edits. It touches nothing but its arguments, so it can be used
+// from several goroutines.
+func c11verify(lhs, rhs []int, es []slice.Edit[int]) (problem string, nrep int) {
+	problem, nrep, _ = c11verifyW(lhs, rhs, es)
+	return
+}
+
+func c11verifyW(lhs, rhs []int, es []slice.Edit[int]) (problem string, nrep int, ways int64) {
+	want, ways := lcsTable(lhs, rhs)
+	equal := equalInts(lhs, rhs)
+	if equal != (len(es) == 0) {
+		return fmt.Sprintf("script empty=%v but inputs equal=%v", len(es) == 0, equal), 0, ways
+	}
+	if len(es) == 0 {
+		return "", 0, ways
+	}
+	lpos, rpos, kept := 0, 0, 0
+	span := func(x []int, base []int, pos int, what string, i int) string {
+		if pos+len(x) > len(base) {
+			return fmt.Sprintf("edit %d: %s has %d elements but only %d remain at offset %d", i, what, len(x), len(base)-pos, pos)
+		}
+		if !equalInts(x, base[pos:pos+len(x)]) {
+			return fmt.Sprintf("edit %d: %s=%v is not the span %v at offset %d", i, what, x, base[pos:pos+len(x)], pos)
+		}
+		if len(x) > 0 && &x[0] != &base[pos] {
+			return fmt.Sprintf("edit %d: %s does not share storage with the input at offset %d", i, what, pos)
+		}
+		return ""
+	}
+	for i, e := range es {
+		if i > 0 && es[i-1].Op == e.Op {
+			return fmt.Sprintf("edits %d and %d have the same kind %c", i-1, i, e.Op), nrep, ways
+		}
+		if i > 0 {
+			if p, q := es[i-1].Op, e.Op; p != slice.OpEmit && q != slice.OpEmit {
+				return fmt.Sprintf("edits %d (%c) and %d (%c) are adjacent without being fused", i-1, p, i, q), nrep, ways
+			}
+		}
+		switch e.Op {
+		case slice.OpEmit:
+			if len(e.X) == 0 || len(e.Y) != 0 {
+				return fmt.Sprintf("edit %d: Emit with %d X and %d Y elements", i, len(e.X), len(e.Y)), nrep, ways
+			}
+			if pr := span(e.X, lhs, lpos, "Emit.X", i); pr != "" {
+				return pr, nrep, ways
+			}
+			if rpos+len(e.X) > len(rhs) || !equalInts(e.X, rhs[rpos:rpos+len(e.X)]) {
+				return fmt.Sprintf("edit %d: Emit %v does not produce the next elements of rhs at offset %d", i, e.X, rpos), nrep, ways
+			}
+			lpos += len(e.X)
+			rpos += len(e.X)
+			kept += len(e.X)
+		case slice.OpDrop:
+			if len(e.X) == 0 || len(e.Y) != 0 {
+				return fmt.Sprintf("edit %d: Drop with %d X and %d Y elements", i, len(e.X), len(e.Y)), nrep, ways
+			}
+			if pr := span(e.X, lhs, lpos, "Drop.X", i); pr != "" {
+				return pr, nrep, ways
+			}
+			lpos += len(e.X)
+		case slice.OpCopy:
+			if len(e.Y) == 0 || len(e.X) != 0 {
+				return fmt.Sprintf("edit %d: Copy with %d X and %d Y elements", i, len(e.X), len(e.Y)), nrep, ways
+			}
+			if pr := span(e.Y, rhs, rpos, "Copy.Y", i); pr != "" {
+				return pr, nrep, ways
+			}
+			rpos += len(e.Y)
+		case slice.OpReplace:
+			nrep++
+			if len(e.X) == 0 || len(e.Y) == 0 {
+				return fmt.Sprintf("edit %d: Replace with %d X and %d Y elements", i, len(e.X), len(e.Y)), nrep, ways
+			}
+			if pr := span(e.X, lhs, lpos, "Replace.X", i); pr != "" {
+				return pr, nrep, ways
+			}
+			if pr := span(e.Y, rhs, rpos, "Replace.Y", i); pr != "" {
+				return pr, nrep, ways
+			}
+			lpos += len(e.X)
+			rpos += len(e.Y)
+		default:
+			return fmt.Sprintf("edit %d has unknown opcode %q", i, e.Op), nrep, ways
+		}
+	}
+	if lpos != len(lhs) || rpos != len(rhs) {
+		return fmt.Sprintf("script consumes %d of %d lhs elements and produces %d of %d rhs elements", lpos, len(lhs), rpos, len(rhs)), nrep, ways
+	}
+	if kept != want {
+		return fmt.Sprintf("script keeps %d elements but a longest common subsequence has %d: not minimal", kept, want), nrep, ways
+	}
+	return "", nrep, ways
+}
+
+// c11kept remembers a few earlier results so that they can be verified again
+// after later calls (a result must not change once it has been returned).
+type c11keptT struct {
+	lhs, rhs []int
+	es       []slice.Edit[int]
+}
+
+var c11kept []c11keptT
+
+// c11keepOK is false while the inputs are windows of a buffer that the
+// harness itself rewrites for the next case (such results cannot be kept).
+var c11keepOK = true
+
+func c11recheckKept(c *fw.Ctx) {
+	for _, k := range c11kept {
+		c.Add("kept_results_rechecked", 1)
+		if pr, _ := c11verify(k.lhs, k.rhs, k.es); pr != "" {
+			c.Fail(map[string]any{"lhs": k.lhs, "rhs": k.rhs, "script_now": editsString(k.es)}, "a script returned earlier is no longer valid after later calls to EditScript: %s", pr)
+			break
+		}
+	}
+	c11kept = c11kept[:0]
+}
+
 // c11check runs every oracle on one pair and returns (ambiguous, replaceCount).
 func c11check(c *fw.Ctx, lhs, rhs []int) (bool, int) {
 	l0 := append([]int(nil), lhs...)
@@ -105,99 +225,16 @@ func c11check(c *fw.Ctx, lhs, rhs []int) (bool, int) {
 		c.Fail(caseData(), "EditScript modified its inputs: lhs=%v rhs=%v", lhs, rhs)
 		return false, 0
 	}
-	want, ways := lcsTable(lhs, rhs)
-	equal := equalInts(lhs, rhs)
-	if equal != (len(es) == 0) {
-		c.Fail(caseData(), "script empty=%v but inputs equal=%v", len(es) == 0, equal)
-		return ways > 1, 0
-	}
-	if len(es) == 0 {
-		return ways > 1, 0
-	}
-	lpos, rpos, kept, nrep := 0, 0, 0, 0
-	span := func(x []int, base []int, pos int, what string, i int) bool {
-		if pos+len(x) > len(base) {
-			c.Fail(caseData(), "edit %d: %s has %d elements but only %d remain at offset %d", i, what, len(x), len(base)-pos, pos)
-			return false
-		}
-		if !equalInts(x, base[pos:pos+len(x)]) {
-			c.Fail(caseData(), "edit %d: %s=%v is not the span %v at offset %d", i, what, x, base[pos:pos+len(x)], pos)
-			return false
-		}
-		if len(x) > 0 && &x[0] != &base[pos] {
-			c.Fail(caseData(), "edit %d: %s does not share storage with the input at offset %d", i, what, pos)
-			return false
-		}
-		return true
-	}
-	for i, e := range es {
-		if i > 0 && es[i-1].Op == e.Op {
-			c.Fail(caseData(), "edits %d and %d have the same kind %c", i-1, i, e.Op)
-			return ways > 1, nrep
-		}
-		if i > 0 {
-			p, q := es[i-1].Op, e.Op
-			if p != slice.OpEmit && q != slice.OpEmit {
-				c.Fail(caseData(), "edits %d (%c) and %d (%c) are adjacent without being fused", i-1, p, i, q)
-				return ways > 1, nrep
-			}
-		}
-		switch e.Op {
-		case slice.OpEmit:
-			if len(e.X) == 0 || len(e.Y) != 0 {
-				c.Fail(caseData(), "edit %d: Emit with %d X and %d Y elements", i, len(e.X), len(e.Y))
-				return ways > 1, nrep
-			}
-			if !span(e.X, lhs, lpos, "Emit.X", i) {
-				return ways > 1, nrep
-			}
-			if rpos+len(e.X) > len(rhs) || !equalInts(e.X, rhs[rpos:rpos+len(e.X)]) {
-				c.Fail(caseData(), "edit %d: Emit %v does not produce the next elements of rhs at offset %d", i, e.X, rpos)
-				return ways > 1, nrep
-			}
-			lpos += len(e.X)
-			rpos += len(e.X)
-			kept += len(e.X)
-		case slice.OpDrop:
-			if len(e.X) == 0 || len(e.Y) != 0 {
-				c.Fail(caseData(), "edit %d: Drop with %d X and %d Y elements", i, len(e.X), len(e.Y))
-				return ways > 1, nrep
-			}
-			if !span(e.X, lhs, lpos, "Drop.X", i) {
-				return ways > 1, nrep
-			}
-			lpos += len(e.X)
-		case slice.OpCopy:
-			if len(e.Y) == 0 || len(e.X) != 0 {
-				c.Fail(caseData(), "edit %d: Copy with %d X and %d Y elements", i, len(e.X), len(e.Y))
-				return ways > 1, nrep
-			}
-			if !span(e.Y, rhs, rpos, "Copy.Y", i) {
-				return ways > 1, nrep
-			}
-			rpos += len(e.Y)
-		case slice.OpReplace:
-			nrep++
-			if len(e.X) == 0 || len(e.Y) == 0 {
-				c.Fail(caseData(), "edit %d: Replace with %d X and %d Y elements", i, len(e.X), len(e.Y))
-				return ways > 1, nrep
-			}
-			if !span(e.X, lhs, lpos, "Replace.X", i) || !span(e.Y, rhs, rpos, "Replace.Y", i) {
-				return ways > 1, nrep
-			}
-			lpos += len(e.X)
-			rpos += len(e.Y)
-		default:
-			c.Fail(caseData(), "edit %d has unknown opcode %q", i, e.Op)
-			return ways > 1, nrep
-		}
-	}
-	if lpos != len(lhs) || rpos != len(rhs) {
-		c.Fail(caseData(), "script consumes %d of %d lhs elements and produces %d of %d rhs elements", lpos, len(lhs), rpos, len(rhs))
+	pr, nrep, ways := c11verifyW(lhs, rhs, es)
+	if pr != "" {
+		c.Fail(caseData(), "%s", pr)
 		return ways > 1, nrep
 	}
-	if kept != want {
-		c.Fail(caseData(), "script keeps %d elements but a longest common subsequence has %d: not minimal", kept, want)
+	if c11keepOK && len(es) > 0 && (len(c11kept) < 64) && (len(lhs)+len(rhs))%5 == 0 {
+		c11kept = append(c11kept, c11keptT{lhs, rhs, es})
+	}
+	if len(c11kept) >= 64 {
+		c11recheckKept(c)
 	}
 	return ways > 1, nrep
 }
@@ -229,7 +266,51 @@ func countSeqs(a, maxLen int) int {
 	return n
 }
 
+// c11concurrent: EditScript is a pure function, so goroutines calling it on
+// unshared inputs must each get a correct script (also run under -race).
+func c11concurrent(c *fw.Ctx, base int) {
+	rounds := c.Pick(4, 40)
+	for k := 0; k < rounds; k++ {
+		if !c.Begin(base + k) {
+			continue
+		}
+		seed := c.Rng().Uint64()
+		msg := concurrently(8, seed, func(g int, r *rand.Rand) string {
+			for i := 0; i < 300; i++ {
+				var lhs, rhs []int
+				if i%3 == 0 {
+					lhs, rhs = c11randomPair(r)
+					if len(lhs) > 120 {
+						lhs = lhs[:120]
+					}
+					if len(rhs) > 120 {
+						rhs = rhs[:120]
+					}
+				} else {
+					lhs, rhs = seqOf(r.IntN(1000), 3), seqOf(r.IntN(1000), 3)
+				}
+				es := slice.EditScript(lhs, rhs)
+				if pr, _ := c11verify(lhs, rhs, es); pr != "" {
+					return fmt.Sprintf("goroutine %d: EditScript(%v, %v) = %v: %s", g, lhs, rhs, es, pr)
+				}
+				c.Step()
+			}
+			return ""
+		})
+		c.Add("concurrent_calls", 8*300)
+		if msg != "" {
+			c.Fail(map[string]any{"phase": "8 goroutines calling EditScript on unshared inputs"}, "%s", msg)
+		}
+	}
+}
+
 func runC11(c *fw.Ctx) {
+	defer c11recheckKept(c)
+	if c.Flavour == "race" {
+		c11concurrent(c, 1<<22)
+		return
+	}
+	c11concurrent(c, 1<<22)
 	idx := 0
 	type space struct{ a, maxLen int }
 	spaces := []space{{3, 7}, {2, 9}, {4, 5}}
@@ -276,6 +357,8 @@ func runC11(c *fw.Ctx) {
 	// inputs that share storage: prefixes, suffixes and overlapping windows of one backing array
 	if c.Begin(idx + 900000 + c.Block) {
 		var n int64
+		c11recheckKept(c)
+		c11keepOK = false
 		for total := 1; total <= 9; total++ {
 			buf := make([]int, total)
 			for code := c.Block; code < 1<<uint(total); code += c.NBlocks {
@@ -294,6 +377,7 @@ func runC11(c *fw.Ctx) {
 				}
 			}
 		}
+		c11keepOK = true
 		c.Evals(n)
 		c.Add("pairs", n)
 		c.Add("aliased_pairs", n)
